@@ -127,6 +127,7 @@ def brentsroot(f, bounds, tol=None, verbose=False, return_interval=False):
     mflag = True
     conv = False
     numiter = 3
+    width_prev = width_prev2 = D.ar_numpy.abs(b - a)
 
     while not conv:
         if verbose:
@@ -164,8 +165,13 @@ def brentsroot(f, bounds, tol=None, verbose=False, return_interval=False):
             a, b = b, a
             fa, fb = fb, fa
         conv = (fb == 0 or fs == 0 or D.ar_numpy.abs(b - a) < tol)
-        if numiter >= 64:
+        width = D.ar_numpy.abs(b - a)
+        if numiter >= 64 and not (width <= 0.5 * width_prev2):
+            # beyond the usual budget of 64 evaluations the search only goes on while the bracket still at least halves every two
+            # iterations (one of any two consecutive iterations is a bisection): a bracket wider than about 2^60 * tol needs more
+            # than 64 evaluations, and giving up on it reported a bracketed sign change as a failure
             break
+        width_prev2, width_prev = width_prev, width
     if verbose:
         with numpy.printoptions(precision=17, linewidth=200):
             print(f"[{numiter}] a={D.ar_numpy.to_numpy(a)}, b={D.ar_numpy.to_numpy(b)}, f(a)={D.ar_numpy.to_numpy(fa)}, f(b)={D.ar_numpy.to_numpy(fb)}")
@@ -259,6 +265,8 @@ def brentsrootvec(f, bounds, tol=None, verbose=False, return_interval=False, acc
     not_conv = D.ar_numpy.logical_not(conv)
     numiter = D.ar_numpy.ones_like(a, dtype=D.autoray.to_backend_dtype('int64', like=upper_bound), like=upper_bound) * 3
     true_conv = D.ar_numpy.abs(fb) <= tol
+    width_prev = D.ar_numpy.abs(b - a)
+    width_prev2 = width_prev
 
     while D.ar_numpy.any(conv):
         if verbose:
@@ -310,7 +318,11 @@ def brentsrootvec(f, bounds, tol=None, verbose=False, return_interval=False, acc
         fa[mask], fb[mask] = fb[mask], fa[mask]
 
         conv = D.ar_numpy.logical_not(D.ar_numpy.logical_or(D.ar_numpy.logical_or(fb == 0, fs == 0), D.ar_numpy.abs(b - a) < tol))
-        conv = conv & (numiter <= 64)
+        # beyond the usual budget of 64 evaluations a component is only iterated further while its bracket still at least halves
+        # every two iterations (see brentsroot)
+        width = D.ar_numpy.abs(b - a)
+        conv = conv & ((numiter <= 64) | (width <= 0.5 * width_prev2))
+        width_prev2, width_prev = width_prev, width
         not_conv = D.ar_numpy.logical_not(conv)
         true_conv = (D.ar_numpy.abs(fb) <= tol) | ((D.ar_numpy.abs(b - a) <= tol * D.ar_numpy.maximum(D.ar_numpy.abs(b), 1.0)) & (fa * fb <= 0))
 
